@@ -146,7 +146,11 @@ func (x *Exec) doAppend(fr *frame, st *State, c *ssa.CallCommon, args []smt.T) s
 	st.assume(smt.Implies(smt.And(realloc, smt.Lt(smt.IntLit(0), sArr(r))), smt.And(x.freshnessOf(st, sArr(r)), smt.Not(x.notFresh(sArr(r))))))
 	st.refsMaybe = append(st.refsMaybe, maybeRef{ref: sArr(r), cond: realloc})
 	if isAggregate(sl.Elem()) {
-		x.diag("append on a slice of aggregates: element contents not tracked")
+		if stt, ok := sl.Elem().Underlying().(*types.Struct); ok && !strArg && x.flatStruct(stt) {
+			x.appendStructs(st, sl.Elem(), stt, s, t, r, realloc)
+			return r
+		}
+		x.diag("append on a slice of nested aggregates: element contents not tracked")
 		x.havocAll(st)
 		return r
 	}
@@ -407,4 +411,46 @@ func (x *Exec) wrappedArgs(fr *frame, st *State, c *ssa.CallCommon) ([]smt.T, bo
 		}
 	}
 	return ws, true
+}
+
+// flatStruct: all fields are scalars (no nested struct / array fields).
+func (x *Exec) flatStruct(stt *types.Struct) bool {
+	for i := 0; i < stt.NumFields(); i++ {
+		if isAggregate(stt.Field(i).Type()) {
+			return false
+		}
+	}
+	return true
+}
+
+// appendStructs models append on a slice of flat structs: elements live at interior references ea$T(arr, pos), their
+// fields in the per-field heaps. Old elements are preserved (copied on reallocation), the appended ones equal t's.
+func (x *Exec) appendStructs(st *State, et types.Type, stt *types.Struct, s, t, r smt.T, realloc smt.T) {
+	ri := smt.Raw("i!q", smt.Int)
+	for k := 0; k < stt.NumFields(); k++ {
+		hn, hs := x.fieldHeap(et, k)
+		h := x.heap(st, hn, hs)
+		h2 := x.ctx.Fresh(hn, hs)
+		st.heaps[hn] = h2
+		relem := smt.Select(h2, x.elemRef(et, sArr(r), x.at(sOff(r), ri)))
+		selem := smt.Select(h, x.elemRef(et, sArr(s), x.at(sOff(s), ri)))
+		telem := smt.Select(h, x.elemRef(et, sArr(t), x.at(sOff(t), smt.Sub(ri, sLen(s)))))
+		q := func(body, pat smt.T) smt.T {
+			return smt.Raw("(forall ((i!q Int)) (! "+body.S+" :pattern ("+pat.S+")))", smt.Bool)
+		}
+		st.assume(q(smt.Implies(smt.And(smt.Le(smt.IntLit(0), ri), smt.Lt(ri, sLen(s))), smt.Eq(relem, selem)), relem))
+		st.assume(q(smt.Implies(smt.And(smt.Le(sLen(s), ri), smt.Lt(ri, smt.Add(sLen(s), sLen(t)))), smt.Eq(relem, telem)), relem))
+		st.assume(smt.Implies(smt.Eq(sLen(t), smt.IntLit(1)),
+			smt.Eq(smt.Select(h2, x.elemRef(et, sArr(r), x.at(sOff(r), sLen(s)))), smt.Select(h, x.elemRef(et, sArr(t), x.at(sOff(t), smt.IntLit(0)))))))
+		// frame: objects that are not elements of the result array keep their field
+		rq := smt.Raw("o!q", smt.Int)
+		inv := x.ctx.Fun("eaArr$"+typeName(et), []string{smt.Int}, smt.Int)
+		st.assume(smt.Raw("(forall ((o!q Int)) (! (=> (not (= ("+inv+" o!q) "+sArr(r).S+")) (= (select "+h2.S+" o!q) (select "+h.S+" o!q))) :pattern ((select "+h2.S+" o!q))))", smt.Bool))
+		_ = rq
+	}
+	// eaArr$T(ea$T(a, p)) == a: the array an element reference belongs to
+	f := x.ctx.Fun("ea$"+typeName(et), []string{smt.Int, smt.Int}, smt.Int)
+	inv := x.ctx.Fun("eaArr$"+typeName(et), []string{smt.Int}, smt.Int)
+	x.axioms["eaArr:"+f] = "(assert (forall ((a!a Int) (p!a Int)) (! (= (" + inv + " (" + f + " a!a p!a)) a!a) :pattern ((" + f + " a!a p!a)))))"
+	_ = realloc
 }
